@@ -4,3 +4,4 @@ import DafRel.Props.C04
 #print axioms DafRel.Props.C04.commute_proj_dedup_unsound
 #print axioms DafRel.Props.C04.bridge_flags
 #print axioms DafRel.Props.C04.bridge_commute_methods
+#print axioms DafRel.Props.C04.bridge_partial_join
